@@ -25,6 +25,11 @@ def run(ctx) -> None:
     jsonrules.rule_K3(ctx)
     jsonrules.rule_J1(ctx)
     jsonrules.rule_J6(ctx)
+    from .c15 import rule_Q7
+    ctx.rules_run.append("Q7")
+    rule_Q7(ctx)                # RFC 3339 text: four-digit year over the whole valid range
+    ctx.rules_run.append("J2")
+    jsonrules.rule_J2(ctx)      # the canonical forms of the reference (64-bit integers as text, base64, float specials) are taken back by from_dict
     from . import presence
     ctx.rules_run.append("J3")
     presence.rule_D4(ctx, "J3")     # an object read from reference JSON is present, empty or not
